@@ -147,6 +147,33 @@ Fixpoint nohit_in (K : list string) (f : forest A) : bool :=
   end.
 Definition nohit (f : forest A) : bool := nohit_in (fkeys A f) f.
 
+(* ------------------------------------------------------------------ identity: which of the objects handed to the call occur in a tree *)
+Definition ob_ids (ob : obj) : list Z := match ob with Old z => [z] | New => [] end.
+Fixpoint olds_t (t : tree A) : list Z :=
+  match t with
+  | Leaf s _ => ob_ids s
+  | NonT ob _ _ => ob_ids ob
+  | Node ob _ f => ob_ids ob ++ olds_f f
+  end
+with olds_f (f : forest A) : list Z :=
+  match f with FNil => [] | FCons _ t r => olds_t t ++ olds_f r end.
+
+(* the shape of a tensordict: its objects, its keys in order, the storages of its leaves — not the values, not the metadata *)
+Inductive shape := HLeaf (s : obj) | HNonT (ob : obj) | HNode (ob : obj) (l : list (string * shape)).
+Fixpoint shape_t (t : tree A) : shape :=
+  match t with
+  | Leaf s _ => HLeaf s
+  | NonT ob _ _ => HNonT ob
+  | Node ob _ f => HNode ob (shape_f f)
+  end
+with shape_f (f : forest A) : list (string * shape) :=
+  match f with FNil => [] | FCons k t r => (k, shape_t t) :: shape_f r end.
+
+(* named_apply: accepts out= and does not forward it (C20-a) *)
+Definition named_apply_front (con propagate : bool) (self : tree A) (others : list (tree A)) (out : option (tree A))
+           (names : option dnames) : res (option (tree A)) :=
+  front A o fn con propagate self others None names.
+
 End Spec.
 
 Arguments ROk {X} x.
